@@ -11,8 +11,9 @@
 EXTENDS GridWorld, TLC
 
 SolutionStatuses == {"EXACT", "APPROXIMATE"}
+(* EXCEPTION: solve() threw ompl::Exception (e.g. a planner rejecting a space it does not support) *)
 NonSolutionStatuses == {"TIMEOUT", "INVALID_START", "INVALID_GOAL", "UNRECOGNIZED_GOAL_TYPE",
-                        "UNKNOWN", "INFEASIBLE", "ABORT"}
+                        "UNKNOWN", "INFEASIBLE", "ABORT", "EXCEPTION"}
 Tol == 20    \* micro-units: rounding of two fixed-point conversions plus slack
 
 AbsI(x) == IF x < 0 THEN -x ELSE x
@@ -21,8 +22,10 @@ AbsI(x) == IF x < 0 THEN -x ELSE x
 SolClauses == {"nonempty", "startsAtStart", "inBounds", "verticesValid", "invalidRun",
                "pairsRecheck", "cellWalk", "exactEndsInGoal", "approxDifference", "exactEndsInGoalCell"}
 
+(* every clause but the first presupposes a non-empty path, so an empty path fails exactly "nonempty" *)
 SolClause(c, r, s) ==
     CASE c = "nonempty" -> s.n >= 1                      \* never an empty path
+      [] s.n < 1 -> TRUE
       [] c = "startsAtStart" -> s.startOk                 \* starts at a valid, in-bounds start state
       [] c = "inBounds" -> s.inBounds                     \* every state within the bounds
       [] c = "verticesValid" -> s.vertsValid              \* every vertex valid
@@ -30,15 +33,18 @@ SolClause(c, r, s) ==
       [] c = "pairsRecheck" -> (r.pairs => s.pairsOk)     \* individually validated motions pass again
       (* model side: the cells the path runs through form a walk in the free 8-connected *)
       (* graph that starts in the start cell                                              *)
-      [] c = "cellWalk" -> (~s.cellsTruncated /\ s.n >= 1 =>
+      [] c = "cellWalk" -> (~s.cellsTruncated =>
                                /\ IsFreeWalk(r.W, r.H, r.obst, s.cells)
                                /\ Len(s.cells) >= 1 /\ s.cells[1] = r.start
                                /\ s.cells[Len(s.cells)] \in Reach(r.W, r.H, r.obst, r.start))
       [] c = "exactEndsInGoal" -> (~s.approx => s.endInGoal)
-      [] c = "approxDifference" ->                        \* the difference describes the last state
+      (* the reported difference describes the last state: planners report either the distance to *)
+      (* the goal state / centre or the distance to (a state of) the goal region, so any value    *)
+      (* between "distance minus threshold" and "distance" agrees with the last state             *)
+      [] c = "approxDifference" ->
              (s.approx =>
-                 \/ AbsI(s.diff - s.endDist) <= Tol
-                 \/ AbsI(s.diff - (IF s.endDist > r.thrMicro THEN s.endDist - r.thrMicro ELSE 0)) <= Tol)
+                 /\ s.diff <= s.endDist + Tol
+                 /\ s.diff >= (IF s.endDist > r.thrMicro THEN s.endDist - r.thrMicro ELSE 0) - Tol)
       [] c = "exactEndsInGoalCell" ->
              (~s.approx /\ r.thr = "tiny" /\ ~s.cellsTruncated /\ Len(s.cells) >= 1
                   => s.cells[Len(s.cells)] = r.goal)
@@ -64,7 +70,9 @@ CallClause(c, r) ==
       [] c = "invalidStartOnlyIfInvalid" -> (r.status = "INVALID_START" => r.start \in r.obst)
       [] c = "invalidGoalOnlyIfInvalid" -> (r.status = "INVALID_GOAL" => r.goal \in r.obst)
       [] c = "exactOnlyIfReachable" ->
-             (r.status = "EXACT" /\ r.thr # "huge" => r.goal \in Reach(r.W, r.H, r.obst, r.start))
+             (* with a tiny threshold the path ends on the goal state itself (a wider goal region *)
+             (* around a jittered goal may reach into neighbouring cells: covered by cellWalk)    *)
+             (r.status = "EXACT" /\ r.thr = "tiny" => r.goal \in Reach(r.W, r.H, r.obst, r.start))
       [] c = "noSolutionFromInvalidStart" -> (r.start \in r.obst => r.status \notin SolutionStatuses)
 
 FailedFirstSolve(r) ==
